@@ -105,6 +105,17 @@ class IdealNet(torch.nn.Module):
         self.paf_sigma = paf_sigma
         self.calls = []
         self.fits = []
+        # smallest distance (px) of any local-peak target to a tie line (exactly half-way between two grid cells):
+        # there the ideal map has two equal maxima and a strict local-maximum detector legitimately finds none.
+        self.min_tie = float("inf")
+
+    def _tie(self, pts, S):
+        for p in pts:
+            if p is None:
+                continue
+            for c in (float(p[0]), float(p[1])):
+                if c == c:
+                    self.min_tie = min(self.min_tie, abs(((c / S) % 1.0) - 0.5) * S)
 
     def forward(self, x):
         if x.ndim == 5:
@@ -127,6 +138,7 @@ class IdealNet(torch.nn.Module):
                 for g in given:
                     c = centroid_of(g, self.anchor)
                     if c is not None:
+                        self._tie([c], S)
                         cm = torch.maximum(cm, bumps([c], H, W, S, self.sigma))
                 outs.append(cm)
             elif self.kind == "centered":
@@ -144,6 +156,8 @@ class IdealNet(torch.nn.Module):
                 from sleap_nn.data.confidence_maps import generate_multiconfmaps
                 from sleap_nn.data.edge_maps import generate_pafs
 
+                for g in given:
+                    self._tie(list(g), S)
                 if given:
                     inst = torch.tensor(np.stack(given)[None], dtype=torch.float32)
                 else:
